@@ -542,6 +542,9 @@ def _mul_count(t, limit=24):
 def _z3_once(assumptions, goal, ms):
     s = z3.Solver()
     s.set('timeout', ms)
+    if goal is not False and is_sym(goal):
+        from .state import cone_of_influence
+        assumptions = cone_of_influence(assumptions, goal)
     for a in assumptions:
         s.add(a)
     if goal is not False:
